@@ -2,7 +2,11 @@
 
 package log
 
-import "reflect"
+import (
+	"reflect"
+
+	"github.com/go-spring/stdlib/errutil"
+)
 
 // This file is only compiled with the `verif` build tag. It exposes a few
 // unexported functions to the verification harness under /verif and adds no
@@ -63,3 +67,53 @@ func VerifLifecycleState() (init bool, loggers, appenders int) {
 
 // VerifBufLen reports how many items are waiting in the async logger's channel.
 func (c *AsyncLogger) VerifBufLen() int { return len(c.buf) }
+
+// VerifNewPlugin runs toStorage on m and instantiates the plugin registered
+// under (typ, name) from the resulting storage with the given key prefix.
+func VerifNewPlugin(typ PluginType, name, prefix string, m map[string]string) (any, error) {
+	s, err := toStorage(m)
+	if err != nil {
+		return nil, err
+	}
+	p, ok := pluginRegistry[typ][name]
+	if !ok {
+		return nil, errutil.Explain(nil, "plugin %s not found", name)
+	}
+	v, err := NewPlugin(p.Class, prefix, s)
+	if err != nil {
+		return nil, err
+	}
+	return v.Interface(), nil
+}
+
+// VerifConfigured returns the loggers and appenders recorded by the last successful Refresh.
+func VerifConfigured() ([]Logger, []Appender) {
+	return append([]Logger(nil), global.loggers...), append([]Appender(nil), global.appenders...)
+}
+
+// VerifProperties returns the names of the registered properties.
+func VerifProperties() []string {
+	var r []string
+	for k := range propertyRegistry {
+		r = append(r, k)
+	}
+	return r
+}
+
+// VerifRotations returns the registered time rotation policies.
+func VerifRotations() map[string]TimeRotation {
+	r := map[string]TimeRotation{}
+	for k, v := range timeRotationRegistration {
+		r[k] = v
+	}
+	return r
+}
+
+// VerifConverterTypes returns the types that have a registered converter.
+func VerifConverterTypes() []reflect.Type {
+	var r []reflect.Type
+	for t := range typeConverters {
+		r = append(r, t)
+	}
+	return r
+}
